@@ -228,7 +228,7 @@ PROPS = {
                               "c09_sync_progress", "c09_sync_retires", "c09_skip", "c09_rtlsdr", "c09_fir", "c09_gated",
                               "c09_delay", "c09_au_encode", "c09_v2s", "c09_resampler", "c09_generator_source", "c09_vector_sink",
                               "c09_null_sink", "c09_fft_float_eof_sound", "c09_fft_float_old_eof_unsound",
-                              "c09_delay_eof_sound", "c09_delay_old_eof_unsound"],
+                              "c09_delay_eof_sound", "c09_delay_old_eof_unsound", "c09_sync_eof_sound", "c09_eof_sound_hand"],
         "runs": [
             {"sub": "blocks", "quick": ["--seed", "{seed}", "--set", "modelled", "--cases", 800, "--steps", 40, "--tag-heavy", 1],
              "thorough": ["--seed", "{seed}", "--set", "modelled", "--cases", 40000, "--steps", 80, "--tag-heavy", 1]},
